@@ -27,5 +27,39 @@ def check(tier, seed):
     run.trusted("the parser (C01/C02) produces the documents; Node.to_dict() as structural view")
     run.assume("child-slot coverage of the _visit_* methods and ChainedVisitor are bounded only (evaluated at run time on the enumerated corpus)")
     engine_p.run(run, 'C18')
+    # static slot coverage of the _visit_* methods (for all documents): every child slot traversed once, stored back, in source order
+    import contracts.visitor_map as VM
+    from py_gql.lang.visitor import ASTVisitor
+    from vf import visitstatic
+    backend = "traversal-statement analysis"
+    try:
+        obs, degraded = visitstatic.obligations(ASTVisitor, VM.NODE_SLOTS)
+    except visitstatic.Unsupported as e:
+        obs, degraded = [], [("ASTVisitor.visit", str(e))]
+    for m, why in degraded:
+        run.cov["degraded_functions"].append({"function": "ASTVisitor.%s" % m, "reason": why})
+    methods = sorted(set(visitstatic.dispatch_table(ASTVisitor).values())) if obs else []
+    run.cov["functions_under_contract"] += ["ASTVisitor.%s (slot coverage)" % m for m in methods]
+    for o in obs:
+        run.cov["obligations"] += 1
+        run.cov["backends"][backend] = run.cov["backends"].get(backend, 0) + 1
+        if o["holds"]:
+            run.cov["discharged"] += 1
+            continue
+        w = {"parent": o["cls"], "slot": o["slot"], "kind": "StringValue" if o["slot"] == "description" else None, "detail": o["detail"]}
+        if o["kind"] == "order":
+            import re as _re
+            m_ = _re.search(r"in the order (\[.*?\]); source order is (\[.*?\])", o["detail"])
+            if m_:
+                got, want = eval(m_.group(1)), eval(m_.group(2))
+                for i in range(len(got) - 1):
+                    if want.index(got[i]) > want.index(got[i + 1]):
+                        w.update(slot=got[i], before=got[i + 1])
+                        break
+        before = len(run.violations)
+        run.violation(o["id"], o["detail"], w, False, extra={"obligation": o["id"], "solver": backend, "solver_status": "refuted"})
+        if len(run.violations) == before:
+            run.cov["refuted_known"] += 1
+
     return run.finish("other", "trace contracts over every syntactic path of the real function (Engine P, unbounded in the inputs, values abstracted) + bounded stand-in: visitor trace and edit-locality contracts on every document of the enumerated corpus",
                       checker_cmd="./check C18 --tier %s" % tier)
